@@ -51,12 +51,12 @@ def main(tier):
         rep.notes["chain"] = {"source": "TLC run of spec/Calendar.tla (cached by spec hash)", **ch.meta}
         drv = b.driver("drv_cal", link_lib=True)
         bnd = chainmod.boundary_ldns(core.rng("c11"), width=3 if quick else 12)
-        plan = [dict(mode="clock", step=211 if quick else 23, args=(1 if quick else 6,), exhaustive=False),
+        plan = [dict(mode="clock", step=211 if quick else 5, args=(1 if quick else 6,), exhaustive=False),
                 dict(mode="clock", ranges=cc.windows(bnd), args=(0 if quick else 2,), exhaustive=False, prefix="bnd ")]
         cc.run_plan(rep, b, ch, drv, plan)
         # ---- B: the tools
         dadd, ddiff, dconv = b.tool("dadd"), b.tool("ddiff"), b.tool("dconv")
-        days = [l for l in bnd if l < caldrv.TAIL_FIRST - 10][:: 25 if quick else 5]
+        days = [l for l in bnd if l < caldrv.TAIL_FIRST - 10][:: 25 if quick else 2]
         pts = [(l, rng.choice(SODS)) for l in days] + [(l, 86399) for l in days[::7]] + [(l, 0) for l in days[::7]]
         ev = []
         nrun = 0
@@ -76,7 +76,7 @@ def main(tier):
                     continue
                 ev.append({"e": "Add", "src": "dadd %+d%s" % (n, unit), "t": [l, s], "dq": dq, "dr": dr, "res": parse_dt(ch, got), "out": got})
         # differences in seconds, near and far (more than 2^31 s apart too)
-        for i in range(300 if quick else 3000):
+        for i in range(300 if quick else 30000):
             (la, sa) = rng.choice(pts)
             far = rng.random() < 0.4
             lb = rng.randrange(chainmod.LDN_1601, caldrv.TAIL_FIRST) if far else la + rng.choice([0, 1, -1, 7, -30, 366])
